@@ -28,7 +28,7 @@ def runList (objs : List Obj) (focus : String) : Sexp :=
       | _, .error e => errSx e
       | .ok peers, .ok owners =>
         let hasIngress := (IngressA.allowedIngress objs owners).isSome
-        let focusExists := focus == "" || (if focus == "ingress-controller" then hasIngress else peers.any (Engine.isFocus focus))
+        let focusExists := focus == "" || (focus == "ingress-controller" && hasIngress) || peers.any (Engine.isFocus focus)
         if !focusExists then .list [.atom "ok", .atom "nofocus"]
         else match eng.connsBetweenPeers peers focus with
           | .error e => errSx e
